@@ -10,9 +10,10 @@ def l_uns(dom, p):
     for x, sg in p.signs():
         if sg == 'zero' and isinstance(x, tuple) and numericish(x): dom.add_equality(x, I(0))
 
-def bid_dom(p, base):
+def bid_dom(p, base, eng=None, PROP=None, what=None):
     bs = BidSpec(base)
-    has_fee = p.variant_of(bs.FEE) == 'Some'
+    if eng is not None: has_fee = fee_presence(eng, PROP, p, bs.FEE, what) == 'Some'
+    else: has_fee = p.variant_of(bs.FEE) == 'Some'
     dom = Dom(p); dom.assume_bid(base, has_fee); l_uns(dom, p)
     return bs, has_fee, dom
 
@@ -28,7 +29,7 @@ def check_I7(eng, PROP, p):
                 d = dict(val[3])
                 eng.ob(d.get('accumulated_fee') == I(0) and d.get('accumulated_quote') == I(0), PROP, 'I7', 'create', 'a new bid does not start with zero accumulated fee / quote', where=w['site']); n += 1
             continue
-        bs, has_fee, dom = bid_dom(p, base)
+        bs, has_fee, dom = bid_dom(p, base, eng, PROP, 'the bid is %s' % ('removed' if op == 'remove' else 'rewritten'))
         if not has_fee:
             na = nget(val, (('f', 'accumulated_fee'),))
             eng.ob(dom.eq(na, bs.aF), PROP, 'I7', p.variant + ':no-fee', '%s: accumulated_fee of a fee-less bid changes to %s' % (p.variant, dom.show(na)), where=w['site']); n += 1
